@@ -839,10 +839,15 @@ def update_file(remote, local, verbose=False):
         local_hash = read_lines_sha1(lines)
         read_lines = read_lines_sha1
 
+    remote_hash = None
     for fields in index_fields:
         for (field, value) in fields:
             if field == prefix+'-Current':
-                (remote_hash, _) = re_whitespace.split(value)
+                parts = re_whitespace.split(value)
+                if len(parts) != 2:
+                    # unusable index
+                    return download_file(remote, local)
+                remote_hash = parts[0]
                 if local_hash == remote_hash:
                     if verbose:
                         print("update_file: local file is up-to-date")
@@ -853,7 +858,11 @@ def update_file(remote, local, verbose=False):
                 for entry in value.splitlines():
                     if entry == '':
                         continue
-                    (hist_hash, _, patch_name) = re_whitespace.split(entry)
+                    parts = re_whitespace.split(entry)
+                    if len(parts) != 3:
+                        # unusable index
+                        return download_file(remote, local)
+                    (hist_hash, _, patch_name) = parts
 
                     # After the first patch, we have to apply all
                     # remaining patches.
@@ -866,14 +875,19 @@ def update_file(remote, local, verbose=False):
                 for entry in value.splitlines():
                     if entry == '':
                         continue
-                    (patch_hash, _, patch_name) = re_whitespace.split(entry)
+                    parts = re_whitespace.split(entry)
+                    if len(parts) != 3:
+                        # unusable index
+                        return download_file(remote, local)
+                    (patch_hash, _, patch_name) = parts
                     patch_hashes[patch_name] = patch_hash
                 continue
 
             if verbose:
                 print("update_file: field %r ignored" % field)
 
-    if not patches_to_apply:
+    if not patches_to_apply or remote_hash is None \
+            or not all(name in patch_hashes for name in patches_to_apply):
         if verbose:
             print("update_file: could not find historic entry", local_hash)
         return download_file(remote, local)
